@@ -376,13 +376,14 @@ class Response:
 
         self.send_headers()
 
-        if self.is_chunked():
+        # a zero-length chunk would terminate the chunked body prematurely
+        if self.is_chunked() and nbytes > 0:
             chunk_size = "%X\r\n" % nbytes
             self.sock.sendall(chunk_size.encode('utf-8'))
         if nbytes > 0:
             self.sock.sendfile(respiter.filelike, offset=offset, count=nbytes)
 
-        if self.is_chunked():
+        if self.is_chunked() and nbytes > 0:
             self.sock.sendall(b"\r\n")
 
         os.lseek(fileno, offset, os.SEEK_SET)
